@@ -163,32 +163,106 @@ theorem C09_version (pre post : List (List Char)) (y1 y2 y3 y4 m1 m2 d1 d2 : Nat
       .ok (.header (1000 * y1 + 100 * y2 + 10 * y3 + y4, 10 * m1 + m2, 10 * d1 + d2)) :=
   parseBlock_header pre post y1 y2 y3 y4 m1 m2 d1 d2 hy1 hy2 hy3 hy4 hm1 hm2 hd1 hd2 hpre hok
 
+/-! ## whole files -/
+
+/-- `split("\n\n")` returns exactly the blocks that were joined by blank lines (no block contains a
+blank line or ends in a line feed) -/
+theorem C09_lex_blocks (blocks : List (List Char)) (hne : blocks ≠ []) (h : ∀ b ∈ blocks, BlockOk b) :
+    splitOnStr blankLine (joinStr blankLine blocks) = blocks :=
+  splitOnStr_joinStr blocks hne h
+
+/-- `lines()` returns exactly the rows that were joined by line feeds, with or without a final one -/
+theorem C09_lex_lines (rows : List (List Char)) (ending : List Char) (h : ∀ l ∈ rows, LineOk l)
+    (hend : RowsEnd rows ending) : lines (joinWith '\n' rows ++ ending) = rows :=
+  lines_rows rows ending h hend
+
+/-- A whole rendered `hp.obo` — header block, then `[Term]` stanzas and other stanzas (`items` is
+ANY list, hence any order and any mixture), separated by blank lines — is read as exactly the
+term stanzas in file order, each with its name, obsolete flag, replacement and `is_a` parents,
+plus the release version. -/
+theorem C09_obo_file (pre post : List (List Char)) (y1 y2 y3 y4 m1 m2 d1 d2 : Nat)
+    (hy1 : y1 < 10) (hy2 : y2 < 10) (hy3 : y3 < 10) (hy4 : y4 < 10) (hm1 : m1 < 10) (hm2 : m2 < 10)
+    (hd1 : d1 < 10) (hd2 : d2 < 10)
+    (hpre : ∀ l ∈ pre, stripPrefix versionPrefix l = none) (hok : ∀ l ∈ pre ++ post, LineOk l)
+    (items : List Item) (hitems : ∀ i ∈ items, i.Ok) (ending : List Char)
+    (hend : ending = [] ∨ ending = blankLine) :
+    readObo (joinStr blankLine
+        (joinWith '\n' (headerLines pre post y1 y2 y3 y4 m1 m2 d1 d2) :: items.map Item.render) ++ ending) =
+      .ok { terms := itemsTerms items,
+            version := (1000 * y1 + 100 * y2 + 10 * y3 + y4, 10 * m1 + m2, 10 * d1 + d2) } :=
+  readObo_file pre post y1 y2 y3 y4 m1 m2 d1 d2 hy1 hy2 hy3 hy4 hm1 hm2 hd1 hd2 hpre hok items hitems ending hend
+
+/-- a whole gene file of either flavour: the header line is dropped and the rows (any list, any
+order) are exactly one `annotate_gene` call each, in file order -/
+theorem C09_gene_file (tr : Bool) (hdr : List Char) (rows : List GRow) (ending : List Char)
+    (hnl : '\n' ∉ hdr)
+    (hh : startsWith ['#'] hdr = true ∨ startsWith hdrNcbi hdr = true ∨ startsWith hdrHpo hdr = true)
+    (h : ∀ r ∈ rows, r.Ok) (hend : RowsEnd rows ending) :
+    removeHeader (hdr ++ '\n' :: (joinWith '\n' (rows.map (GRow.render tr)) ++ ending)) =
+      .ok (joinWith '\n' (rows.map (GRow.render tr)) ++ ending) ∧
+    ∀ o, geneRows tr (lines (joinWith '\n' (rows.map (GRow.render tr)) ++ ending)) o = annotateGenes rows o :=
+  geneFile_render tr hdr rows ending hnl hh h hend
+
+/-- a whole phenotype.hpoa (comment block, column header, OMIM / ORPHA / `NOT` / DECIPHER rows in
+any order): exactly one `annotate_omim_disease` / `annotate_orpha_disease` call per OMIM / ORPHA
+row whose qualifier is not `NOT`, in file order; every other line contributes nothing -/
+theorem C09_hpoa_file (rows : List DRow) (ending : List Char) (h : ∀ r ∈ rows, r.Ok)
+    (hend : RowsEnd rows ending) (o : Onto) :
+    diseaseRows (lines (joinWith '\n' (rows.map DRow.render) ++ ending)) o = annotateDiseases rows o :=
+  hpoaFile_render rows ending h hend o
+
+/-- **C09_file (partial).** Loading three rendered files — for ANY list of stanzas / rows, i.e. any
+order — is exactly the Builder-model program `buildFromFacts` over the facts in file order:
+`add_term` per `[Term]` stanza (with name, obsolete flag, replacement), the release version,
+`add_parent_unchecked` per `is_a` line, `connect_all_terms`, one `annotate_gene` per gene row, one
+`annotate_omim_disease` / `annotate_orpha_disease` per OMIM / ORPHA row that is not `NOT`,
+`calculate_information_content`, `build_with_defaults`; header / comment lines, other stanza types
+and other databases contribute nothing. Both loaders (`tr`).
+
+Full statement `C09_file` (NOT proved here, `_partial`):
+  `∀ perm of items / grows / drows, loadJax … (render perm) ≃ buildVia Builder API facts ≃ loadFacts 3 facts`
+(observational equality of the dumps). The missing step — `buildFromFacts` does not depend on the
+order of its stanzas and rows and agrees with the checked `add_parent` API and with the binary
+loader — is the statement of C16 about the Builder model; for C09 it rests on the correspondence
+check (`same 0 1`, `same 0 2` on every well-formed generated case). Also not covered by the
+theorem, only by the check: an obo file ending in a single line feed after the last stanza, rows
+with trailing empty columns are covered (`IsTail`). -/
+theorem C09_file_partial (tr : Bool)
+    (pre post : List (List Char)) (y1 y2 y3 y4 m1 m2 d1 d2 : Nat)
+    (hy1 : y1 < 10) (hy2 : y2 < 10) (hy3 : y3 < 10) (hy4 : y4 < 10) (hm1 : m1 < 10) (hm2 : m2 < 10)
+    (hd1 : d1 < 10) (hd2 : d2 < 10)
+    (hpre : ∀ l ∈ pre, stripPrefix versionPrefix l = none) (hok : ∀ l ∈ pre ++ post, LineOk l)
+    (items : List Item) (hitems : ∀ i ∈ items, i.Ok) (oboEnd : List Char)
+    (hoboEnd : oboEnd = [] ∨ oboEnd = blankLine)
+    (hdr : List Char) (grows : List GRow) (geneEnd : List Char) (hnl : '\n' ∉ hdr)
+    (hh : startsWith ['#'] hdr = true ∨ startsWith hdrNcbi hdr = true ∨ startsWith hdrHpo hdr = true)
+    (hg : ∀ r ∈ grows, r.Ok) (hgeneEnd : RowsEnd grows geneEnd)
+    (drows : List DRow) (hpoaEnd : List Char) (hd : ∀ r ∈ drows, r.Ok) (hhpoaEnd : RowsEnd drows hpoaEnd) :
+    loadJax tr
+      (joinStr blankLine
+        (joinWith '\n' (headerLines pre post y1 y2 y3 y4 m1 m2 d1 d2) :: items.map Item.render) ++ oboEnd)
+      (hdr ++ '\n' :: (joinWith '\n' (grows.map (GRow.render tr)) ++ geneEnd))
+      (joinWith '\n' (drows.map DRow.render) ++ hpoaEnd) =
+    buildFromFacts (itemsTerms items)
+      (1000 * y1 + 100 * y2 + 10 * y3 + y4, 10 * m1 + m2, 10 * d1 + d2) grows drows :=
+  loadJax_render tr pre post y1 y2 y3 y4 m1 m2 d1 d2 hy1 hy2 hy3 hy4 hm1 hm2 hd1 hd2 hpre hok items hitems
+    oboEnd hoboEnd hdr grows geneEnd hnl hh hg hgeneEnd drows hpoaEnd hd hhpoaEnd
+
 /-! ## non-vacuity -/
+example : (Item.other "[Typedef]".toList ["id: has_part".toList, "is_a: HP:0000001 ! All".toList]).Ok := by
+  refine ⟨?_, ?_, ?_⟩
+  · intro l hl
+    simp at hl
+    rcases hl with rfl | rfl | rfl <;> exact ⟨by decide, by decide, by decide⟩
+  · intro s; simp [termPrefix, stripPrefix]
+  · intro s; simp [formatPrefix, startsWith]
+example : (DRow.ignored "DECIPHER:1\tDeletion\t\tHP:0000001".toList).Ok :=
+  ⟨by decide, by decide, by decide, by decide, by decide⟩
+example : (DRow.excluded true "7x".toList "Only: excluded".toList "HP:zz".toList "\tPMID:1".toList).Ok :=
+  ⟨⟨by decide, by decide, by decide⟩, ⟨by decide, by decide, by decide⟩, ⟨by decide, by decide, by decide⟩,
+    ⟨'z', by decide, by decide⟩, Or.inr ⟨_, rfl⟩, by decide, by decide⟩
 set_option maxRecDepth 8192 in
-example : renderStanza 218 "b: é".toList true (some 1) [(217, "X".toList), (1, "All".toList)]
-      [("def".toList, "\"H: m\" [P:1]".toList)] [("xref".toList, "A:B".toList)] =
-    ("[Term]\nid: HP:0000218\nname: b: é\ndef: \"H: m\" [P:1]\n" ++
-     "is_a: HP:0000217 ! X\nis_a: HP:0000001 ! All\nis_obsolete: true\nreplaced_by: HP:0000001\nxref: A:B").toList := by
-  decide
-example : StanzaOk "High palate: é".toList [(217, "Xerostomia".toList)]
-    [("def".toList, "\"Height: more\" [PMID:1]".toList)] [("xref".toList, "A:B".toList)] := by
-  refine ⟨by decide, by decide, ?_⟩
-  intro e he
-  simp at he
-  rcases he with rfl | rfl <;> exact ⟨⟨by decide, by decide, by decide, by decide, by decide, by decide⟩,
-    ⟨by decide, by decide, by decide⟩, by decide, by decide⟩
-example : parseBlock "[Term]\nid: HP:0000218\nname: b: c\nis_a: HP:0000217 ! X\nis_a: HP:0000001\n".toList
-    = .ok (.term { id := 218, name := "b: c".toList } [217]) := by decide
-example : joinWith '\n' (headerLines ["saved-by: x".toList] [] 2 0 2 2 1 0 0 5) =
-    "format-version: 1.2\nsaved-by: x\ndata-version: hp/releases/2022-10-05".toList := by decide
-example : parseGeneRow false "10\tNAT2\tHP:0000007\tAutosomal recessive inheritance\t-\tOMIM:243400".toList
-    = .ok (10, "NAT2".toList, 7) := by decide
-example : renderG2P 10 "NAT2".toList 7 "\tfoo\tbar".toList = "10\tNAT2\tHP:0000007\tfoo\tbar".toList := by decide
-example : parseGeneRow true "HP:0000002\tAbnormality of body height\t81848\tSPRY4\t\torphadata".toList
-    = .ok (81848, "SPRY4".toList, 2) := by decide
-example : parseDiseaseRow "OMIM:609153\tPseudohyperkalemia: type é\tNOT\tHP:0001878\tPMID:2766660".toList = .ok none := by decide
-example : parseDiseaseRow "ORPHA:600171\tGonadal agenesis\t\tHP:0000055\tOMIM:600171\tTAS\t\t".toList
-    = .ok (some (.orpha, "600171".toList, "Gonadal agenesis".toList, 55)) := by decide
-example : IsTail '\t' "\tPMID:1\tTAS".toList := Or.inr ⟨_, rfl⟩
+example : readObo "format-version: 1.2\n\n[Term]\nid: HP:0000001\nname: A\n\n[Typedef]\nid: x\n".toList =
+    .ok { terms := [({ id := 1, name := "A".toList }, [])], version := (0, 0, 0) } := by decide
 
 end Hpo.C09
